@@ -32,6 +32,7 @@ func init() {
 			{Name: "Let stores into a nil map (original defect)", File: "eval.go", Old: "\tif state.scope.variables == nil {\n\t\t// the bottom scope holds the VarMap passed to Execute, which may be nil\n\t\tstate.scope.variables = make(VarMap)\n\t}\n\tstate.scope.variables[name] = reflect.ValueOf(val)", New: "\tstate.scope.variables[name] = reflect.ValueOf(val)", Rule: "C18.top"},
 			{Name: "Set writes the innermost scope instead of rebinding", File: "eval.go", Old: "func (state *Runtime) Set(name string, val interface{}) error {\n\treturn state.setValue(name, reflect.ValueOf(val))\n}", New: "func (state *Runtime) Set(name string, val interface{}) error {\n\tstate.scope.variables[name] = reflect.ValueOf(val)\n\treturn nil\n}", Rule: "C18.shared"},
 			{Name: "YieldBlock renders twice with a context (original defect)", File: "eval.go", Old: "\t\tst.executeList(block.List)\n\t\tst.context = current\n\t\treturn\n\t}", New: "\t\tst.executeList(block.List)\n\t\tst.context = current\n\t}", Rule: "C18.once"},
+			{Name: "YieldBlock looks only at the innermost scope's block table (agent seed C18/3)", File: "eval.go", Old: "\tblock, has := st.getBlock(name)\n\n\tif has == false {\n\t\tpanic(fmt.Errorf(\"Block %q was not found!!\", name))", New: "\tblock, has := st.blocks[name]\n\n\tif has == false {\n\t\tpanic(fmt.Errorf(\"Block %q was not found!!\", name))", Rule: "C18.once"},
 			{Name: "YieldBlock does not restore the context", File: "eval.go", Old: "\t\tst.executeList(block.List)\n\t\tst.context = current\n\t\treturn\n", New: "\t\tst.executeList(block.List)\n\t\t_ = current\n\t\treturn\n", Rule: "C18.once"},
 			{Name: "YieldBlock ignores an unknown block", File: "eval.go", Old: "\tif has == false {\n\t\tpanic(fmt.Errorf(\"Block %q was not found!!\", name))\n\t}\n", New: "\tif has == false {\n\t\treturn\n\t}\n", Rule: "C18.once"},
 			{Name: "Resolve bypasses the shared lookup", File: "eval.go", Old: "func (state *Runtime) Resolve(name string) reflect.Value {\n\tv, _ := state.resolve(name)\n\treturn v\n}", New: "func (state *Runtime) Resolve(name string) reflect.Value {\n\treturn state.scope.variables[name]\n}", Rule: "C18.shared"},
@@ -210,6 +211,22 @@ func runC18(c *an.Ctx) {
 			tv := finfo.Types[call.Args[0]]
 			c.Check(types.Implements(tv.Type, errorIface()), "C18.once", "(*Runtime).YieldBlock/panic-value", call.Pos(), "the unknown-block panic carries an error", "YieldBlock panics with a non-error value: Runtime.recover re-panics it out of Execute")
 		}
+		// "like {{yield name() ctx}}": the block is found the way the yield statement finds it — through
+		// getBlock(name), which walks the scope chain — not by indexing one scope's table
+		okLookup, direct := false, token.NoPos
+		for _, call := range p.CallsIn(f, "(*jet.scope).getBlock") {
+			if len(call.Args) == 1 && an.Norm(f, call.Args[0]) == "$p0" {
+				okLookup = true
+			}
+		}
+		an.InspectOwn(f, func(n ast.Node) bool {
+			if ix, ok := n.(*ast.IndexExpr); ok && p.FieldKey(finfo, an.Unparen(ix.X)) == "scope.blocks" {
+				direct = ix.Pos()
+			}
+			return true
+		})
+		c.Check(okLookup && !direct.IsValid(), "C18.once", "(*Runtime).YieldBlock/lookup", f.Pos(), "the block is resolved by getBlock(name), as the yield statement does",
+			"YieldBlock does not resolve its block through getBlock(name) (it indexes a single scope's block table): inside an included template or a parametrised block the blocks of the enclosing scopes are not found, although {{yield name()}} at the same place renders them")
 		// context bracket
 		r := explorePairs(p, f)
 		c.States += r.x.Visited
